@@ -256,14 +256,15 @@ void TcpConnector::onConnectFail()
     //! 如果设置了尝试次数，且超过了尝试次数，则回调 connect_fail_cb_ 然后回到 State::kInited
     //! 否则继续进入重连等待延时状态
     if ((try_times_ > 0) && (conn_fail_times_ >= try_times_)) {
+        //! back to idle before the callback: it may call stop(), cleanup() or start()
+        state_ = State::kInited;
+
         if (connect_fail_cb_) {
             ++cb_level_;
             connect_fail_cb_();
             --cb_level_;
         } else
             LogNotice("connector stoped");
-
-        state_ = State::kInited;
     } else
         enterReconnectDelayState();
 }
